@@ -379,7 +379,7 @@ fn violate(rep: &mut Report, ops: &[Op], r: (String, String, usize)) {
 }
 
 pub fn run(ctx: &Ctx) -> Report {
-    let seqs = ctx.size(400_000, 40_000_000) as usize;
+    let seqs = ctx.size(1_500_000, 40_000_000) as usize;
     let batches = (seqs + 49) / 50;
     // clamp sweep: 4096 chunks of the 2^32 space
     let stride: u64 = if ctx.quick() { 256 } else { 1 };
